@@ -18,3 +18,21 @@ COMMON_ASSUME = [
     'callee contracts used at call sites are those listed in the evidence functions table where the callee is itself '
     'under contract; other callees (listed in trusted_base) are assumed',
 ]
+
+
+def native_guard(pack, name, fn):
+    """Run a bounded native stand-in; an exception raised from inside the repository code is reported as a violation of
+    that stand-in (with the traceback as replay), any other exception is a checker error."""
+    import os
+    import traceback
+    try:
+        return fn()
+    except Exception as e:           # noqa
+        tb = traceback.extract_tb(e.__traceback__)
+        repo = os.environ.get('VERIF_REPO', '/repo')
+        inner = tb[-1].filename if tb else ''
+        if inner.startswith(repo) or '/andes/' in inner:
+            pack.violation(name, {'bounded': True, 'exception': repr(e), 'traceback': traceback.format_exc()[-1500:],
+                                  'native_cmd': 'bounded native stand-in raised inside the repository code'})
+            return None
+        raise
